@@ -49,6 +49,11 @@ def locks(rng, keys, cache, gen):
         op('READ_CACHE') + b'\x01k' + op('CHECK_SIG') + b'\x00',
         op('DEPTH') + push(b'\x01') + op('EQUAL_VERIFY') + op('TRUE'),
         push(hashlock) + op('EVAL'),
+        deff(0, op('CALL') + b'\x01') + deff(1, checksig) + op('CALL') + b'\x00',          # forward reference: the lock's own helper, defined after its caller
+        deff(0, op('CALL') + b'\x01') + deff(1, hashlock) + op('CALL') + b'\x00',
+        deff(2, op('CALL') + b'\xff') + deff(255, op('FALSE')) + op('CALL') + b'\x02',
+        op('DUP') + push(digest) + op('SWAP2') + op('SHA256') + op('EQUAL_VERIFY') + op('SHA256') + push(digest) + op('EQUAL_VERIFY') + op('TRUE'),
+        op('DUP') + op('EQUAL_VERIFY') + op('TRUE'),
         deff(0, tri(iff(op('FALSE') + op('CALL') + b'\x00'), b'') + hashlock) + op('CALL') + b'\x00',
         deff(0, tri(iff(op('FALSE') + op('CALL') + b'\x00'), op('POP0')) + checksig) + op('CALL') + b'\x00',
         deff(1, tri(op('DEPTH') + push(b'\x01') + op('EQUAL') + iff(push(b'\x00') + op('CALL') + b'\x01') + op('FALSE') + op('VERIFY'), b'') + op('POP0') + hashlock) + op('CALL') + b'\x01',
@@ -129,6 +134,10 @@ def judge(cfg, cache, scripts):
                 problems.append(f'run_auth_scripts raised {type(e).__name__}')
         if v is not True and v is not False and not isinstance(v, str):
             problems.append(f'non-bool verdict {v!r}')
+        bad_events = [e for e in tr.events if e[0] in ('item-dropped', 'deque-append-outside-put', 'deque-extend-bypasses-put', 'deque-appendleft', 'deque-insert',
+                                                       'deque-extendleft', 'deque-iadd-bypasses-put', 'pointer-past-end', 'pointer-moved-backwards')]
+        if bad_events:
+            problems.append(f'the stack / tape was changed behind the interpreter\'s own checks: {bad_events[0]} (an item can vanish or an instruction be skipped without an error)')
         if tr.fetch_with_return:
             problems.append(f'{tr.fetch_with_return} instruction(s) fetched while a RETURN was pending (first: {tr.events[0][1] if tr.events else "?"}): '
                             'a RETURN leaked past the construct it ended')
